@@ -980,7 +980,7 @@ func (p *pkg) gateFactOf() gateFact {
 		g.ctxVar, g.errVar, g.callTopLevel = a.Name, b.Name, true
 		if i+1 < len(fd.Body.List) {
 			if ifs, ok := fd.Body.List[i+1].(*ast.IfStmt); ok && ifs.Init == nil && ifs.Else == nil &&
-				render(ifs.Cond) == b.Name+" != nil" && len(ifs.Body.List) > 0 {
+				(render(ifs.Cond) == b.Name+" != nil" || render(ifs.Cond) == "nil != "+b.Name) && len(ifs.Body.List) > 0 {
 				if rs, ok := ifs.Body.List[len(ifs.Body.List)-1].(*ast.ReturnStmt); ok && len(rs.Results) == 1 && render(rs.Results[0]) == "nil" {
 					g.errBranchExit = true
 				}
